@@ -18,9 +18,15 @@
     packets, every other datagram, malformed ones, broker packets, every timer on the way, EOF,
     shutdown) NO MQTT CONNECT has been written to the broker; invariant: every connect exchange still
     waits for AUTH (`AllAwait`, `Lemmas/GwAuth.lean`: `F8` carried through every model function).
+  * **all runs, authentication disabled** — `c08_configured_credentials_in_every_connect`: after ANY sequence of
+    timed events (AUTH packets with any method and data at any moment of any number of connect exchanges, will
+    packets, everything else) every MQTT CONNECT in the log carries exactly the configured credentials;
+    invariant `J` (`Lemmas/GwCreds.lean`: every stored connect exchange is past `awaitingAuth` and carries the
+    configured credentials, and so does every CONNECT written), frame `FC` carried through every model function.
   The monitor `Spec.c0809` checks the whole-session statement on implementation traces.
 -/
 import Bisquitt.Lemmas.GwAuth
+import Bisquitt.Lemmas.GwCreds
 import Bisquitt.Props.C0809
 import Bisquitt.Spec.Gateway
 
@@ -291,5 +297,222 @@ theorem c08_no_connect_without_auth (cfg : Cfg) (a b : UInt16) (evs : List (Nat 
         (fun x hx => hq x (by simp [hx]))
   unfold Gw.run
   exact gen evs _ ha (by intro t ht; simp [Gw.init] at ht) rfl hq
+
+end Bisquitt.Gw
+
+namespace Bisquitt.Gw
+open Bisquitt Gw
+
+/-! ## every run, authentication disabled: every MQTT CONNECT carries the configured credentials -/
+
+theorem FC.finishSession (g : Gw) : FC g g.finishSession := by
+  unfold Gw.finishSession
+  split
+  · split
+    · exact FC.refl g
+    · unfold Gw.shutdownDisconnect Gw.stopTimers Gw.emitEnd
+      have h1 : ∀ x : Gw, FC x (if x.st = .active ∨ x.st = .awake then x.emit (.sn (encode (.disconnect 0))) else x) := by
+        intro x; split
+        · exact FC.emit x _ (connOutOk_sn _ _ _)
+        · exact FC.refl x
+      have h2 : ∀ x : Gw, FC x ((x.emit (.ended x.endCls)).emit .mqClose) := fun x => (FC.emit x _ (by intro _ _ _ _ _ _ _ _ _ _ _ _ e; cases e)).trans (FC.emit _ _ (by intro _ _ _ _ _ _ _ _ _ _ _ _ e; cases e))
+      refine (((FC.setNow g _).trans (h1 _)).trans (h2 _)).trans ⟨rfl, fun hJ => ⟨?_, hJ.2⟩⟩
+      intro t ht
+      simp only [List.mem_map] at ht
+      obtain ⟨y, hy, rfl⟩ := ht
+      exact hJ.1 y hy
+  · exact FC.refl g
+
+theorem FC.advance : ∀ (fuel : Nat) (g : Gw) (t : Nat), FC g (advance fuel g t) := by
+  intro fuel
+  induction fuel with
+  | zero => intro g t; exact FC.setNow g _
+  | succ n ih =>
+    intro g t
+    unfold Gw.advance
+    split
+    · exact (FC.finishSession g).trans (FC.setNow _ _)
+    · split
+      · exact ((FC.fireDue g _).trans (FC.finishSession _)).trans (ih _ t)
+      · exact FC.setNow g _
+
+theorem FC.sample (g : Gw) : FC g g.sample := by
+  unfold Gw.sample Gw.sampleBuf Gw.sampleReg Gw.sampleState
+  have e : ∀ (x y : Gw) (o : Out), isMqConnect (y.now, o) = false → y.cfg = x.cfg → y.txs = x.txs → y.outs = x.outs →
+      FC x (y.emit o) := fun x y o ho hc ht hou => (FC.of_eq hc hou ht).trans (FC.emit y o (by
+        intro _ _ _ _ _ _ _ _ _ _ _ _ e
+        simp only at e
+        rw [e] at ho
+        simp [isMqConnect] at ho))
+  split <;> split <;> split <;>
+    first
+    | exact FC.refl g
+    | exact (e _ _ _ rfl rfl rfl rfl)
+    | exact (e _ _ _ rfl rfl rfl rfl).trans (e _ _ _ rfl rfl rfl rfl)
+    | exact ((e _ _ _ rfl rfl rfl rfl).trans (e _ _ _ rfl rfl rfl rfl)).trans (e _ _ _ rfl rfl rfl rfl)
+
+
+theorem connAuthenticated_cfg (g : Gw) (t : Tx) (f : ConnFields) : (g.connAuthenticated t f).cfg = g.cfg := by
+  unfold Gw.connAuthenticated; split <;> simp
+
+theorem connAuth_cfg (g : Gw) (t : Tx) (st : ConnSt) (f : ConnFields) (m d : Bytes) : (g.connAuth t st f m d).cfg = g.cfg := by
+  unfold Gw.connAuth Gw.sendConnack
+  split
+  · rfl
+  · split
+    · split
+      · simp
+      · exact connAuthenticated_cfg _ _ _
+    · simp
+
+theorem FC.handleSn (g : Gw) (p : Pkt) (ha : g.cfg.auth = false) : FC g (g.handleSn p) := by
+  unfold Gw.handleSn
+  split
+  · exact FC.fail g _
+  · split
+    · exact FC.handleConnect g _ _ _ _ ha
+    · split
+      · rename_i t st f hc
+        exact ⟨connAuth_cfg _ _ _ _ _ _, fun hJ => (FC.connAuth g t st f _ _ (connTx_kind hJ hc).1).keep hJ⟩
+      · exact FC.refl g
+    · split
+      · rename_i t st f hc
+        exact ⟨connWillTopic_cfg _ _ _ _ _ _ _, fun hJ => (FC.connWillTopic g t st f _ _ _ (connTx_kind hJ hc).2).keep hJ⟩
+      · exact FC.refl g
+    · split
+      · rename_i t st f hc
+        exact ⟨connWillMsg_cfg _ _ _ _ _, fun hJ => (FC.connWillMsg g t st f _ (connTx_kind hJ hc).2).keep hJ⟩
+      · exact FC.refl g
+    · exact FC.handleRegister g _ _
+    · exact FC.handleClientPublish g _ _ _ _ _ _ _
+    · exact FC.mqttSend g _ rfl
+    · exact FC.handleSubscribe g _ _ _ _ _ _
+    · exact FC.handleUnsubscribe g _ _ _ _
+    · exact FC.handlePingreq g
+    · exact FC.handleDisconnect g _
+    · split
+      · split
+        · exact FC.bpRegack g _ _ _ _ _ _
+        · exact FC.refl g
+      · exact FC.refl g
+    · split
+      · split
+        · split
+          · exact FC.refl g
+          · split
+            · exact FC.finishTx g _
+            · exact FC.proceedMQ g _ _ _ rfl
+        · exact FC.refl g
+      · exact FC.refl g
+    · split
+      · split
+        · split
+          · exact FC.refl g
+          · exact FC.proceedMQ g _ _ _ rfl
+        · exact FC.refl g
+      · exact FC.refl g
+    · split
+      · split
+        · split
+          · exact FC.refl g
+          · exact FC.proceedMQ g _ _ _ rfl
+        · exact FC.refl g
+      · exact FC.refl g
+    · exact FC.fail g _
+
+theorem FC.handleMq (g : Gw) (p : MqPkt) : FC g (g.handleMq p) := by
+  unfold Gw.handleMq
+  split
+  · split
+    · rename_i t st f hc
+      exact FC.connConnack g t st _
+    · exact FC.refl g
+  · split
+    · split
+      · exact (FC.finishTx g _).trans (FC.snSend _ _ _)
+      · exact FC.refl g
+    · exact FC.refl g
+  · exact FC.snSend g _ _
+  · exact FC.snSend g _ _
+  · split
+    · split
+      · split
+        · split
+          · exact (FC.finishTx g _).trans (FC.snSend _ _ _)
+          · exact (FC.finishTx g _).trans (FC.snSend _ _ _)
+        · exact (FC.finishTx g _).trans (FC.fail _ _)
+      · exact FC.refl g
+    · exact FC.refl g
+  · exact FC.snSend g _ _
+  · split
+    · exact FC.of_eq rfl rfl rfl
+    · split
+      · exact FC.refl g
+      · exact FC.snSend g _ _
+  · exact FC.handleBrokerPublish g _ _ _ _ _ _
+  · split
+    · split
+      · split
+        · exact FC.refl g
+        · exact FC.proceedSN g _ _ _
+      · exact FC.refl g
+    · exact FC.refl g
+  · exact FC.fail g _
+
+
+theorem FC.handleEvent (g : Gw) (ev : Event) (ha : g.cfg.auth = false) : FC g (g.handleEvent ev) := by
+  unfold Gw.handleEvent
+  split
+  · split
+    · exact (FC.handleSn g _ ha).trans (FC.keepBrokerAlive _)
+    · exact FC.fail g _
+  · exact FC.handleMq g _
+  · exact FC.fail g _
+  · split <;> exact FC.fail g _
+  · exact FC.fail g _
+  · exact FC.refl g
+
+theorem FC.step (g : Gw) (t : Nat) (ev : Event) (ha : g.cfg.auth = false) : FC g (g.step t ev) := by
+  unfold Gw.step Gw.stepCore Gw.deliver
+  have q1 := FC.advance 100000 g t
+  split
+  · exact (q1.trans (FC.finishSession _)).trans (FC.sample _)
+  · have q2 := FC.handleEvent _ ev (by rw [q1.cfg]; exact ha)
+    exact ((((q1.trans q2).trans (FC.advance 100000 _ t)).trans (FC.finishSession _))).trans (FC.sample _)
+
+/-- **C08 (ALL runs, authentication disabled).** Whatever the client sends — AUTH packets with any method and
+    data at any moment of any number of connect exchanges included — every MQTT CONNECT the gateway ever writes
+    carries exactly the configured credentials (user flag and name, password flag and password). -/
+theorem c08_configured_credentials_in_every_connect (cfg : Cfg) (a b : UInt16) (evs : List (Nat × Event))
+    (ha : cfg.auth = false) : ∀ o ∈ ((Gw.init cfg a b).run evs).outs, connOutOk cfg o := by
+  have gen : ∀ (evs : List (Nat × Event)) (g : Gw), g.cfg.auth = false → J g →
+      J (evs.foldl (fun g (te : Nat × Event) => g.step te.1 te.2) g) ∧
+      (evs.foldl (fun g (te : Nat × Event) => g.step te.1 te.2) g).cfg = g.cfg := by
+    intro evs
+    induction evs with
+    | nil => intro g _ hJ; exact ⟨hJ, rfl⟩
+    | cons e rest ih =>
+      intro g hga hJ
+      simp only [List.foldl_cons]
+      have st := FC.step g e.1 e.2 hga
+      have r := ih _ (by rw [st.cfg]; exact hga) (st.keep hJ)
+      exact ⟨r.1, r.2.trans st.cfg⟩
+  have hJ0 : J (Gw.init cfg a b) :=
+    ⟨by intro t ht; simp [Gw.init] at ht, by intro o ho; simp [Gw.init] at ho⟩
+  have h := gen evs (Gw.init cfg a b) ha hJ0
+  have hrun : (Gw.init cfg a b).run evs = evs.foldl (fun g (te : Nat × Event) => g.step te.1 te.2) (Gw.init cfg a b) := rfl
+  intro o ho
+  rw [hrun] at ho
+  have := h.1.2 o ho
+  rw [h.2] at this
+  exact this
+
+/-- non-vacuity: authentication disabled, configured credentials u / p; the client connects and sends a PLAIN AUTH
+    with other credentials: the one MQTT CONNECT written carries u / p -/
+example : (((Gw.init ⟨false, some [0x75], some [0x70], 10, 2, []⟩ 1 10).run
+    [(100, .sn (encode (.connect false true 1 60 [0x63]))),
+     (200, .sn (encode (.auth 0 [0x50, 0x4C, 0x41, 0x49, 0x4E] [0, 0x78, 0, 0x79])))]).outs.filterMap
+    fun o => match o.2 with | .mq (.connect _ _ _ uf u pf p ..) => some (uf, u, pf, p) | _ => none) =
+    [(true, [0x75], true, [0x70])] := by decide
 
 end Bisquitt.Gw
